@@ -40,6 +40,11 @@ var Deviants = []string{
 	"ReadDir:missing-entry", "ReadDir:duplicate-entry", "ReadDir:wrong-isdir", "ReadDir:no-eof", "ReadDir:ignores-n",
 	"ReadDir:duplicate-in-subdir", "Rename:dest-listed-twice-in-subdir", "Mkdir:listed-twice-in-subdir",
 	"ReadDir:cursor-stuck", "ReadDir:second-page-empty-nil",
+	// "@prefix": run with Constraints.AllowErrPathPrefix (as for file systems whose error paths carry an outer prefix).
+	// Every error path gets the prefix "/mnt/root/"; the deviant glues the name on without the separator (a different file).
+	"Remove:errpath-glued-prefix@prefix", "Stat:errpath-glued-prefix@prefix", "Open:errpath-glued-prefix@prefix",
+	// a successful call returns a non-nil error interface holding a nil pointer (the classic typed-nil mistake)
+	"Chtimes:typed-nil-error", "Mkdir:typed-nil-error", "Chmod:typed-nil-error", "Remove:typed-nil-error",
 	// an operation that should succeed fails with an "operation not supported" errno that is NOT ErrNotImplemented
 	"Rename:fails-eopnotsupp", "Rename:cross-dir-fails-enotsup", "Mkdir:fails-eopnotsupp", "MkdirAll:fails-enotsup", "Remove:fails-eopnotsupp", "Chmod:fails-enotsup", "Chtimes:fails-eopnotsupp", "OpenFile:create-fails-eopnotsupp",
 }
@@ -62,7 +67,9 @@ type DevFS struct {
 	inner *mem.FS
 	Dev   string
 	Fired *int64
-	twice sync.Map // directory -> base name that this directory lists twice (…-listed-twice-in-subdir)
+	// Prefixed: error paths carry the outer prefix "/mnt/root/" (the suite then runs with AllowErrPathPrefix)
+	Prefixed bool
+	twice    sync.Map // directory -> base name that this directory lists twice (…-listed-twice-in-subdir)
 }
 
 // New returns a deviant file system.
@@ -71,17 +78,44 @@ func New(dev string, fired *int64) *DevFS {
 	if err != nil {
 		panic(err)
 	}
-	return &DevFS{inner: m, Dev: dev, Fired: fired}
+	return &DevFS{inner: m, Dev: dev, Fired: fired, Prefixed: strings.HasSuffix(dev, "@prefix") || dev == "@prefix"}
 }
 
 func (d *DevFS) is(dev string) bool { return d.Dev == dev }
 
 func (d *DevFS) fire() { atomic.AddInt64(d.Fired, 1) }
 
+// devErr is the error type behind the typed-nil deviants.
+type devErr struct{}
+
+func (*devErr) Error() string { return "dev error" }
+
+// WithPathPrefix: every error path is reported below "/mnt/root/" (what AllowErrPathPrefix permits).
+const errPathPrefix = "/mnt/root/"
+
 // errDev applies the error deviations of operation op to err.
 func (d *DevFS) errDev(op string, err error) error {
 	if err == nil {
+		if d.Dev == op+":typed-nil-error" {
+			d.fire()
+			var e *devErr
+			return e // non-nil interface, nil pointer
+		}
 		return nil
+	}
+	if d.Prefixed && !errors.Is(err, hackpadfs.ErrInvalid) { // (invalid names are refused as given, before any path translation)
+		glue := errPathPrefix
+		if d.Dev == op+":errpath-glued-prefix@prefix" {
+			d.fire()
+			glue = strings.TrimSuffix(errPathPrefix, "/") // "/mnt/root" + "foo": names another file
+		}
+		switch e := err.(type) {
+		case *hackpadfs.PathError:
+			return &hackpadfs.PathError{Op: e.Op, Path: glue + e.Path, Err: e.Err}
+		case *hackpadfs.LinkError:
+			return &hackpadfs.LinkError{Op: e.Op, Old: glue + e.Old, New: glue + e.New, Err: e.Err}
+		}
+		return err
 	}
 	switch d.Dev {
 	case op + ":wrong-errkind":
@@ -547,11 +581,19 @@ func (f *devFile) ReadDir(n int) ([]hackpadfs.DirEntry, error) {
 		// every page is read from a fresh handle: the cursor never advances, io.EOF is never reached on a non-empty directory
 		if g, err := d.inner.Open(f.name); err == nil {
 			defer func() { _ = g.Close() }()
-			entries, err := hackpadfs.ReadDirFile(g, n)
+			// (the complete listing, sorted, cut to n: the order of a fresh handle's pages is not fixed, the deviation must be)
+			entries, err := hackpadfs.ReadDirFile(g, -1)
+			sort.Slice(entries, func(i, j int) bool { return entries[i].Name() < entries[j].Name() })
+			if len(entries) > n {
+				entries = entries[:n]
+			}
 			if f.pages > 0 && len(entries) > 0 {
 				d.fire()
 			}
 			f.pages++
+			if len(entries) == 0 && err == nil {
+				err = io.EOF
+			}
 			return entries, err
 		}
 	}
